@@ -323,22 +323,35 @@ def c16_6(ctx, ss):
                                           "display_photos_keyword is forwarded to _decay_mode_details" if ok else "display_photos_keyword does not reach _decay_mode_details")
     prints = [c for c in pf.calls_in(ff.node) if isinstance(c.func, ast.Name) and c.func.id == "print"]
     a = prints[0].args[0]
-    # the `line` definitions: the one mentioning model must be under print_model
-    pa = [x.id for x in ast.walk(prints[0].args[0]) if isinstance(x, ast.Name)]
-    lines = [d for d in flow.defs if pa and d.name == pa[0] and d.kind == "assign"]
-    okm = False
-    for d in lines:
-        conds = [(txt(e), pol) for kind, e, pol in guards.path_conditions(ff.node, d.stmt) if kind == "if"]
-        ploop = enclosing(ff, prints[0], (ast.For,))[0]
-        mnames = {e.id for e in ploop.target.elts[2:]} if isinstance(ploop.target, ast.Tuple) and len(ploop.target.elts) == 4 else {"model"}
-        has_model = bool(mnames & {x.id for x in ast.walk(d.value) if isinstance(x, ast.Name)})
-        if has_model and conds == [("print_model", True)]:
-            okm = True
-        if (not has_model) and conds != [("print_model", False)]:
-            okm = False
-            break
-    (ctx.holds if okm and len(lines) == 2 else ctx.violation)("C16.6", ckey(ff, None, "print_model"), where(ff, lines[0].stmt if lines else ff.node),
-                                                               "print_model selects the row with model and parameters" if okm and len(lines) == 2 else "print_model does not (only) select the row format with model and parameters")
+    # the printed text: under print_model it shows the model and its parameters, otherwise neither; always bf and daughters.
+    # Decided on the guarded alternatives of the printed local (any statement shape: if/else assignment, prefix + `+=`, …).
+    ploop = enclosing(ff, prints[0], (ast.For,))[0]
+    tn = [e.id for e in ploop.target.elts] if isinstance(ploop.target, ast.Tuple) and len(ploop.target.elts) == 4 and all(isinstance(e, ast.Name) for e in ploop.target.elts) else None
+    names = [x for x in ast.walk(prints[0].args[0]) if isinstance(x, ast.Name)]
+    if tn is None or not names:
+        raise AnchorMissing("print_decay_modes: printing loop over (bf, daughters, model, parameters) rows not understood")
+    alts = flow.guarded_alternatives(names[0], keep=set(tn))
+    if len(alts) == 1 and isinstance(alts[0][1], ast.IfExp):
+        # a single conditional expression: split it
+        e = alts[0][1]
+        alts = [(alts[0][0] + [("if", a_, p_) for a_, p_ in guards.canon_cond(e.test, True)], e.body, alts[0][2]),
+                (alts[0][0] + [("if", a_, p_) for a_, p_ in guards.canon_cond(e.test, False)], e.orelse, alts[0][2])]
+    seen = {True: 0, False: 0}
+    bad = None
+    for conds, val, d in alts:
+        used = {x.id for x in ast.walk(val) if isinstance(x, ast.Name)}
+        has_model = tn[2] in used and tn[3] in used
+        partial = (tn[2] in used) != (tn[3] in used)
+        pm = [p_ for k_, e_, p_ in conds if k_ == "if" and flow.is_identity_of(e_, "print_model")]
+        other = [txt(e_) for k_, e_, p_ in conds if k_ == "if" and not flow.is_identity_of(e_, "print_model")]
+        if partial or len(pm) != 1 or other or pm[0] != has_model or tn[0] not in used or tn[1] not in used:
+            bad = (conds, val)
+        else:
+            seen[has_model] += 1
+    okm = bad is None and seen[True] >= 1 and seen[False] >= 1
+    (ctx.holds if okm else ctx.violation)("C16.6", ckey(ff, None, "print_model"), where(ff, prints[0]),
+                                          "print_model selects the row text with model and parameters; bf and daughters are always shown" if okm
+                                          else "print_model does not (only) select the row format with model and parameters" + (f": `{txt(bad[1])[:80]}` under {[(txt(e_), p_) for k_, e_, p_ in bad[0] if k_ == 'if']}" if bad else ""))
 
 
 def c16_7(ctx, ss):
@@ -367,21 +380,49 @@ def c16_9(ctx, ss):
     else:
         diff = {n: got.get(n) for n in want if got.get(n) != want[n]}
         ctx.violation("C16.3", k, where(ff, ff.node), f"option defaults changed: {diff} (the property fixes descending order / unchanged values / model and PHOTOS shown by default)")
-    # parameter column: every parameter of the line, in order
-    pm = [d for d in flow.defs if d.kind == "assign" and isinstance(d.value, ast.ListComp) and "model_params" in txt(d.value)]
-    okp = len(pm) == 1 and not pm[0].value.generators[0].ifs and txt(flow.expand(pm[0].value.generators[0].iter)).endswith("['model_params']") \
-        and txt(pm[0].value.elt) == f"str({txt(pm[0].value.generators[0].target)})"
-    (ctx.holds if okp else ctx.violation)("C16.4", ckey(ff, None, "all-params"), where(ff, pm[0].stmt if pm else ff.node),
-                                          "the parameter column lists every parameter of the line, in order" if okp else "the parameter column does not list every parameter of the line")
-    joins = [d for d in flow.defs if d.kind == "assign" and isinstance(d.value, ast.IfExp) and "join" in txt(d.value) and pm and pm[0].name in txt(d.value)]
-    okj = False
-    if len(joins) == 1:
-        e = joins[0].value
-        n = pm[0].name
-        t, b, o = txt(e.test), txt(e.body), txt(e.orelse)
-        okj = (t in (f"{n} == []", f"not {n}", f"len({n}) == 0") and b == "''" and o == f"' '.join({n})") or \
-              (t in (f"{n} != []", n, f"len({n}) > 0") and o == "''" and b == f"' '.join({n})")
-    (ctx.holds if okj else ctx.violation)("C16.4", ckey(ff, None, "params-joined"), where(ff, joins[0].stmt if joins else ff.node),
+    # parameter column: every parameter of the line, in order, joined with blanks ('' when there are none) — decided on the
+    # expanded 4th field of the collected row, so locals / an explicit empty-list special case / list vs generator do not matter
+    rows = None
+    for d in flow.defs:
+        if d.kind == "assign" and is_empty_list(d.value) and builder_sites(ff, flow, d.name):
+            rows = d.name
+    apps = [(st, args) for st, m, args in builder_sites(ff, flow, rows) if m == "append"] if rows else []
+    if len(apps) != 1:
+        raise AnchorMissing("print_decay_modes: the single row append was not found")
+    row = flow.expand(apps[0][1][0])
+    col = row.elts[3] if isinstance(row, ast.Tuple) and len(row.elts) == 4 else None
+
+    def params_seq(e):
+        """e lists str(p) for EVERY p of <details>['model_params'], in order"""
+        if isinstance(e, ast.Call) and txt(e.func) in ("list", "tuple") and len(e.args) == 1:
+            e = e.args[0]
+        if isinstance(e, (ast.ListComp, ast.GeneratorExp)) and len(e.generators) == 1 and not e.generators[0].ifs:
+            g = e.generators[0]
+            return txt(g.iter).endswith("['model_params']") and isinstance(e.elt, ast.Call) and txt(e.elt.func) == "str" and len(e.elt.args) == 1 \
+                and txt(e.elt.args[0]) == f"__elem__({txt(g.iter)})"
+        if isinstance(e, ast.Call) and txt(e.func) == "map" and len(e.args) == 2 and txt(e.args[0]) == "str":
+            return txt(e.args[1]).endswith("['model_params']")
+        return False
+
+    def joined(e):
+        return isinstance(e, ast.Call) and isinstance(e.func, ast.Attribute) and e.func.attr == "join" and isinstance(e.func.value, ast.Constant) \
+            and e.func.value.value == " " and len(e.args) == 1 and params_seq(e.args[0])
+    okp = okj = False
+    if col is not None:
+        e = col
+        if isinstance(e, ast.IfExp):
+            # '' when the list is empty, the join otherwise (either arm order)
+            arms = [(e.body, e.orelse), (e.orelse, e.body)]
+            for empty_arm, join_arm in arms:
+                if isinstance(empty_arm, ast.Constant) and empty_arm.value == "" and joined(join_arm):
+                    okp = okj = True
+        elif joined(e):
+            okp = okj = True
+        elif isinstance(e, ast.Call) and isinstance(e.func, ast.Attribute) and e.func.attr == "join":
+            okj = isinstance(e.func.value, ast.Constant) and e.func.value.value == " "
+    (ctx.holds if okp else ctx.violation)("C16.4", ckey(ff, None, "all-params"), where(ff, apps[0][0]),
+                                          "the parameter column lists every parameter of the line, in order" if okp else f"the parameter column is `{txt(col)[:100] if col is not None else None}`: it does not list every parameter of the line")
+    (ctx.holds if okj else ctx.violation)("C16.4", ckey(ff, None, "params-joined"), where(ff, apps[0][0]),
                                           "parameters are joined with blanks (empty string when there are none)" if okj else "the parameter column is not ' '.join(all parameters)")
 
 
